@@ -125,6 +125,15 @@ def run(chk: common.Check):
         if ci == 1:
             grid = (2.0, 6.0, 0.125)
         ref = rng.choice(["neutral", "low-pH"])
+        # profiles with SEVERAL separate stretches below zero / below 80 % of the optimum (the ranges span all of them)
+        if ci == 2:
+            gs, grid, ref = [(1.0, 7.5, 6.5, True, []), (1.0, 6.442641, 4.5, True, [1.37, 1.0, -0.52]), (-1.0, 5.2, 8.0, True, [])], (0.0, 14.0, 0.5), "neutral"
+        if ci == 3:
+            gs, grid, ref = [(1.0, 12.861549, 10.5, True, []), (-1.0, 7.0, 3.8, True, [-0.09]), (-1.0, 5.1, 9.0, True, [-0.66, 1.25, 0.8]), (-1.0, 7.44, 6.5, False, []),
+                             (-1.0, 11.2, 9.0, True, [])], (0.0, 14.0, 0.5), "neutral"
+        if ci == 4:
+            gs, grid, ref = [(1.0, 5.87, 8.0, True, [-0.85]), (1.0, 6.8, 4.5, True, [-0.64]), (1.0, 12.9, 9.0, False, [-0.74, 0.09, 0.39]), (-1.0, 4.0, 4.5, True, []),
+                             (-1.0, 3.249636, 3.8, True, [-0.35, -1.16, 1.0])], (0.0, 14.0, 0.5), "low-pH"
         groups = [CE.fake_group(q, pk, mp, t, coul) for q, pk, mp, t, coul in gs]
         conf.groups = groups
         rec = CE.Recorder()
@@ -163,6 +172,10 @@ def run(chk: common.Check):
             mn = min(p[1] for p in prof)
             if mn < 1e6 and (opt[0] is None or opt[1] != mn or (opt[0], opt[1]) not in [tuple(p) for p in prof]):
                 found.append(("optimum-not-minimum", f"reported optimum {opt} but the profile minimum is {mn}", {"groups": gs, "grid": grid, "reference": ref}))
+            w80 = [p[0] for p in prof if p[1] < 0.8 * mn] if mn < 1e6 else []
+            if (r80 != (None, None)) != bool(w80) or (w80 and (r80[0] != min(w80) or r80[1] != max(w80))):
+                found.append(("range-80pct", f"80 % range {r80} but the points below 80 % of the optimum {mn} span {(min(w80), max(w80)) if w80 else None}",
+                              {"groups": gs, "grid": grid, "reference": ref}))
             neg = [p[0] for p in prof if p[1] < 0]
             if (stab != (None, None)) != bool(neg) or (neg and (stab[0] != min(neg) or stab[1] != max(neg))):
                 found.append(("stability-range", f"stability range {stab} but negative points span {(min(neg), max(neg)) if neg else None}",
